@@ -354,7 +354,7 @@ def csv_read_case(draw):
     rows = [[draw(st.text(SAFE, min_size=draw(st.sampled_from([0, 1, 1])), max_size=8)) for _ in range(ncol)] for _ in range(nrow)]
     for i in draw(st.lists(st.integers(0, nrow - 1), max_size=2)):
         rows[i] = [""] * ncol
-    return {"delim": draw(st.sampled_from([",", ";", "\t", "|"])), "header": header, "rows": rows}
+    return {"delim": draw(st.sampled_from([",", ";", "\t", "|", ",", ";", ":", " ", "^", "~", "#", "!"])), "header": header, "rows": rows}
 
 
 def check_csv_read(case, ctx):
